@@ -181,6 +181,10 @@ class PermutationReciprocalTransformer(BaseReciprocalTransformer):
             # permutes classes
             yp = y.copy().ravel()
             num = numpy.issubdtype(y.dtype, numpy.floating)
+            if not num:
+                # the permuted values may not fit in the dtype of y
+                # (strings permuted into integers and conversely)
+                yp = yp.astype(object)
             for i in range(len(yp)):
                 if num and numpy.isnan(yp[i]):
                     continue
@@ -195,6 +199,8 @@ class PermutationReciprocalTransformer(BaseReciprocalTransformer):
                 else:
                     cl = yp[i]
                 yp[i] = self.permutation_[cl]
+            if not num:
+                yp = numpy.array(yp.tolist())
             return X, yp.reshape(y.shape)
         else:
             # y is probababilies or raw score
